@@ -8,7 +8,7 @@ namespace Psa.Tie.Facts
 open Psa Psa.Generated
 
 /-! ### package-level state: written only by registration -/
-theorem globalWriters : Facts.globalWriters = [("psatoken", "registerProfileUnderName", "profilesRegister")] := by decide
+theorem globalWriters : Facts.globalWriters = [("psatoken", "RegisterProfile+init", "profilesRegister")] := by decide
 
 /-! ### read-side methods: exist, and those with pointer receivers assign no receiver field -/
 def readSide : List (String × String) :=
